@@ -3,6 +3,7 @@ import Model.Wire
 import Model.Geometry
 import Model.Canon
 import Model.Imports
+import Model.Match
 /-!
 # Line-protocol driver: one JSON case per input line, one JSON verdict per output line.
 -/
@@ -163,6 +164,24 @@ def runSem (j : Json) : Json :=
             Json.mkObj [("name", o.name), ("cell", cell), ("latency", match l with | some v => toJson v | none => Json.null),
               ("trace", Json.arr (trace.map (fun v => Json.num (JsonNumber.fromInt v))).toArray)])
           Json.mkObj [("iterate", Json.arr results.toArray)]
+      -- verified validator for the scalar fragment (theorem Facto.scalar_end_to_end)
+      let roots : List (Nat × Bind) := core.named.toList.filterMap (fun nm =>
+        if nm.isBundle then none else
+        let r := jgetD c.names nm.name
+        let src := jstrD r "src"
+        match idxOfId c.ids src, (core.nodes.getD nm.node (.const "" 0)).ty? with
+        | some i, some ty => some (nm.node, Bind.ent i (ren ty))
+        | _, _ => none)
+      let bindArr := inferBindings c.circ core.nodes roots
+      let bindF : Nat → Option Bind := fun n => bindArr.getD n none
+      let rank := computeRank c.circ
+      let ranked := c.circ.checkRanked rank
+      let failing := (List.range core.nodes.size).filter (fun n => !checkNode c.circ core.nodes bindF n)
+      let nBound := (bindArr.toList.filter Option.isSome).length
+      let matchJson := Json.mkObj [("ranked", Json.bool ranked), ("all", Json.bool failing.isEmpty),
+        ("failing_nodes", Json.arr (failing.map (fun n => Json.mkObj [("node", toJson n),
+            ("kind", Json.str ((toString (repr (core.nodes.getD n (.const "" 0)))).take 60).toString)])).toArray),
+        ("bound", nBound), ("roots", roots.length), ("nodes", core.nodes.size)]
       let outputsJson := Json.arr (core.named.toList.filterMap (fun nm =>
         if nm.topLevel && !core.consumed.contains nm.name then
           some (Json.mkObj [("name", nm.name), ("line", nm.line), ("bundle", Json.bool nm.isBundle),
@@ -171,7 +190,7 @@ def runSem (j : Json) : Json :=
       let inputsJson := Json.arr (core.nodes.toList.filterMap (fun nd => match nd with
         | .input name ty v => some (Json.mkObj [("name", name), ("ty", ty), ("lit", Json.num (JsonNumber.fromInt v.toInt))])
         | _ => none)).toArray
-      Json.mkObj [("id", id), ("elab", "ok"), ("stateful", Json.bool stateful), ("outputs", outputsJson), ("inputs", inputsJson),
+      Json.mkObj [("id", id), ("elab", "ok"), ("stateful", Json.bool stateful), ("outputs", outputsJson), ("inputs", inputsJson), ("match", matchJson),
         ("n_nodes", core.nodes.size), ("n_obs", obs.length), ("n_inputs", inputs.length),
         ("obs", Json.arr (obs.map (fun o => Json.str o.name)).toArray),
         ("unsupported", Json.arr (unsupported.map Json.str).toArray),
